@@ -295,7 +295,7 @@ func (e *Engine) solve(res *HarnessResult) {
 		mu.Unlock()
 	}
 	// runIn decides (assumptions[0:nassume] filtered by mode) AND cond in context c.
-	runIn := func(c *sctx, mode int, nassume int, cond *Term, fresh bool, t0 time.Time) (string, map[string]string, bool) {
+	runIn := func(c *sctx, mode int, nassume int, cond *Term, fresh bool, t0 time.Time, noCOI bool) (string, map[string]string, bool) {
 		oneShot := true // self-contained script after (reset): z3 then uses its tactic solver, cvc5 its non-incremental preprocessing
 		if c.s == nil || c.s.dead || (isCVC && (fresh || nassume < c.nAsserted)) {
 			if c.s != nil {
@@ -322,7 +322,7 @@ func (e *Engine) solve(res *HarnessResult) {
 		// rest is satisfiable on its own because the vacuity witness of the
 		// harness (all assumptions together) is required to be sat.
 		var include []bool
-		if !spec.NoCOI {
+		if !spec.NoCOI && !noCOI {
 			include = make([]bool, nassume)
 			cur := append(bitset{}, suppOf(cond)...)
 			for changed := true; changed; {
@@ -408,7 +408,7 @@ func (e *Engine) solve(res *HarnessResult) {
 		defer func() { pool <- w }()
 		t0 := time.Now()
 		if !fresh && !spec.NoLightPass {
-			v, _, ok := runIn(&w.c[0], 0, nassume, cond, false, t0)
+			v, _, ok := runIn(&w.c[0], 0, nassume, cond, false, t0, false)
 			// a vacuity witness only needs the real assumptions to be satisfiable:
 			// facts follow from them once every obligation is discharged
 			if ok && (v == "unsat" || (reach && v == "sat")) {
@@ -419,9 +419,17 @@ func (e *Engine) solve(res *HarnessResult) {
 			}
 		}
 		t1 := time.Now()
-		v, model, ok := runIn(&w.c[1], 1, nassume, cond, fresh, t1)
+		v, model, ok := runIn(&w.c[1], 1, nassume, cond, fresh, t1, false)
 		if !ok {
-			v, model, _ = runIn(&w.c[1], 1, nassume, cond, fresh, t1) // solver died while loading: one retry
+			v, model, _ = runIn(&w.c[1], 1, nassume, cond, fresh, t1, false) // solver died while loading: one retry
+		}
+		if v == "sat" && !fresh && !reach && !spec.NoCOI {
+			// counterexample: ask again with EVERY assumption so that the model
+			// also assigns the inputs outside the cone of influence (the native
+			// replay needs a complete vector)
+			if v2, m2, ok2 := runIn(&w.c[1], 1, nassume, cond, false, time.Now(), true); ok2 && v2 == "sat" {
+				model = m2
+			}
 		}
 		if os.Getenv("GOSMT_VERBOSE") != "" {
 			fmt.Fprintf(os.Stderr, "[query] full nassume=%d nodes=%d verdict=%s t=%.1fs\n", nassume, termSize(cond), v, time.Since(t0).Seconds())
